@@ -83,7 +83,7 @@ def gen_ops(rng, model):
 
 def generate(seed, tier):
     rng = seeds.Rng(seed)
-    model = LL.gen_model(rng, max_frames=rng.pick([8, 30, 120]), allow_alt=True)
+    model = LL.gen_model(rng, max_frames=rng.pick([8, 30, 120]), allow_alt=True, same_file_passes=rng.chance(0.12))
     sc = {'world': 'lis_logical', 'model': model, 'ops': gen_ops(rng, model)}
     if rng.chance(0.2):
         # a second file, reader, index and log passes are alive at the same time: [k, fi] = before operation k all frames of log
